@@ -296,18 +296,62 @@ example : dconn (applyFaceOps exPos ⟨[10, 11, 12, 13], [exSpline, lineDatum, e
 
 /-- the curves the user described with an operation: every face datum between the two points it
     was given for when the face was made, every side datum between the bottom and top point the
-    operation shows at that index (after the calls on its faces) -/
+    operation shows at that index when the datum is attached (after the calls on its faces, before
+    a possible `Operation.invert`) -/
 def described (pos : Nat → V3) (u : UOp) : List (Nat × Nat × Datum) :=
   let b := applyFaceOps pos u.bottom u.bottomOps
   let t := applyFaceOps pos u.top u.topOps
   dconn u.bottom ++ dconn u.top ++
     (List.range 4).map (fun i => (b.pts.getD i 0, t.pts.getD i 0, u.side.getD i lineDatum))
 
-/-- **direction, end to end**: whatever calls were applied to the faces and however many
-    operations there are, every written entry `kind v1 v2 data` is one of the curves some operation
-    described: it joins the vertices at the two locations the datum was given for and either runs
-    the way it was given with the data as given, or runs the other way with the data reversed
-    (points listed backwards, angle negated). -/
+theorem getD_map_reverse (l : List Datum) (i : Nat) :
+    ((l.map Datum.reverse).getD i lineDatum).reverse = l.getD i lineDatum := by
+  simp only [List.getD_eq_getElem?_getD, List.getElem?_map]
+  cases l[i]? with
+  | none => rfl
+  | some d => simp [Datum.reverse_reverse]
+
+/-- the curve a slot of a resolved operation stands for, in terms of the two faces and the side data
+    the operation holds -/
+theorem slot_conn (vl : List Nat) (o : ROp) (b t : Face Nat Datum) (sd : List Datum) (hb : Face4 b) (ht : Face4 t)
+    (hdata : o.data = b.edges ++ t.edges ++ sd)
+    (hverts : ∀ c, c < (b.pts ++ t.pts).length → vl[o.verts.getD c 0]? = (b.pts ++ t.pts)[c]?)
+    (s : Nat) (hs : s < 12) :
+    let y := (vl.getD (o.verts.getD (slotPair s).1 0) 0, vl.getD (o.verts.getD (slotPair s).2 0) 0, o.data.getD s lineDatum)
+    y ∈ dconn b ∨ y ∈ dconn t ∨ ∃ i, i < 4 ∧ y = (b.pts.getD i 0, t.pts.getD i 0, sd.getD i lineDatum) := by
+  obtain ⟨b0, b1, b2, b3, be0, be1, be2, be3, rfl⟩ := face4_cases hb
+  obtain ⟨t0, t1, t2, t3, te0, te1, te2, te3, rfl⟩ := face4_cases ht
+  simp only [List.cons_append, List.nil_append, List.length_cons, List.length_nil] at hverts hdata
+  have hc : ∀ c, c < 8 → vl.getD (o.verts.getD c 0) 0 = [b0, b1, b2, b3, t0, t1, t2, t3].getD c 0 := by
+    intro c hc
+    rw [List.getD_eq_getElem?_getD, hverts c (by omega), List.getD_eq_getElem?_getD]
+  have hs12 : s = 0 ∨ s = 1 ∨ s = 2 ∨ s = 3 ∨ s = 4 ∨ s = 5 ∨ s = 6 ∨ s = 7 ∨ s = 8 ∨ s = 9 ∨ s = 10 ∨ s = 11 := by
+    omega
+  rcases hs12 with rfl | rfl | rfl | rfl | rfl | rfl | rfl | rfl | rfl | rfl | rfl | rfl
+  all_goals (
+    simp only [slotPair, Nat.reduceLT, Nat.reduceAdd, Nat.reduceSub, Nat.reduceMod, if_true, if_false,
+      hc _ (by decide : (0:Nat) < 8), hc _ (by decide : (1:Nat) < 8), hc _ (by decide : (2:Nat) < 8),
+      hc _ (by decide : (3:Nat) < 8), hc _ (by decide : (4:Nat) < 8), hc _ (by decide : (5:Nat) < 8),
+      hc _ (by decide : (6:Nat) < 8), hc _ (by decide : (7:Nat) < 8), hdata]
+    simp only [List.getD_cons_zero, List.getD_cons_succ, dconn_lit])
+  · left; simp
+  · left; simp
+  · left; simp
+  · left; simp
+  · right; left; simp
+  · right; left; simp
+  · right; left; simp
+  · right; left; simp
+  · right; right; exact ⟨0, by decide, rfl⟩
+  · right; right; exact ⟨1, by decide, rfl⟩
+  · right; right; exact ⟨2, by decide, rfl⟩
+  · right; right; exact ⟨3, by decide, rfl⟩
+
+/-- **direction, end to end**: whatever calls were applied to the faces, whether the finished
+    operation was inverted (`Operation.invert`) and however many operations there are, every written
+    entry `kind v1 v2 data` is one of the curves some operation described: it joins the vertices at
+    the two locations the datum was given for and either runs the way it was given with the data as
+    given, or runs the other way with the data reversed (points listed backwards, angle negated). -/
 theorem T_C07_end_to_end (locPos : Nat → V3) (bs : List (Nat × Nat × Nat)) (hbs : beamsOk bs = true)
     (us : List UOp) (hwf : ∀ u ∈ us, Face4 u.bottom ∧ Face4 u.top) (e : Entry)
     (he : e ∈ (assemble locPos bs us).edges) :
@@ -322,58 +366,47 @@ theorem T_C07_end_to_end (locPos : Nat → V3) (bs : List (Nat × Nat × Nat)) (
   refine ⟨u, hu, ?_⟩
   obtain ⟨hb4, hbc⟩ := sameCurves_applyOps locPos (hwf u hu).1 u.bottomOps
   obtain ⟨ht4, htc⟩ := sameCurves_applyOps locPos (hwf u hu).2 u.topOps
-  obtain ⟨b0, b1, b2, b3, be0, be1, be2, be3, hb⟩ := face4_cases hb4
-  obtain ⟨t0, t1, t2, t3, te0, te1, te2, te3, ht⟩ := face4_cases ht4
   have hvl : (assemble locPos bs us).vlocs = (resolveAll locPos [] us).1 := rfl
   simp only [hvl, hv1, hv2, hd]
-  rw [hb, ht] at hdata hverts
-  simp only [List.cons_append, List.nil_append, List.length_cons, List.length_nil] at hverts
-  have hc : ∀ c, c < 8 → (resolveAll locPos [] us).1.getD (o.verts.getD c 0) 0
-      = [b0, b1, b2, b3, t0, t1, t2, t3].getD c 0 := by
-    intro c hc
-    rw [List.getD_eq_getElem?_getD, hverts c (by omega), List.getD_eq_getElem?_getD]
-  unfold described
-  rw [hb] at hbc
-  rw [ht] at htc
-  simp only [hb, ht]
-  have hs12 : s = 0 ∨ s = 1 ∨ s = 2 ∨ s = 3 ∨ s = 4 ∨ s = 5 ∨ s = 6 ∨ s = 7 ∨ s = 8 ∨ s = 9 ∨ s = 10 ∨ s = 11 := by
-    omega
-  have face : ∀ (f g : Face Nat Datum) (x : Nat × Nat × Datum), SameCurves f g → x ∈ dconn g →
-      x ∈ dconn f ∨ flipC x ∈ dconn f := fun f g x h hx => h.1 x hx
-  rcases hs12 with rfl | rfl | rfl | rfl | rfl | rfl | rfl | rfl | rfl | rfl | rfl | rfl
-  -- bottom face, slots 0-3
-  all_goals (
-    simp only [slotPair, Nat.reduceLT, Nat.reduceAdd, Nat.reduceSub, Nat.reduceMod, if_true, if_false,
-      hc _ (by decide : (0:Nat) < 8), hc _ (by decide : (1:Nat) < 8), hc _ (by decide : (2:Nat) < 8),
-      hc _ (by decide : (3:Nat) < 8), hc _ (by decide : (4:Nat) < 8), hc _ (by decide : (5:Nat) < 8),
-      hc _ (by decide : (6:Nat) < 8), hc _ (by decide : (7:Nat) < 8), hdata]
-    simp only [List.getD_cons_zero, List.getD_cons_succ, List.cons_append, List.nil_append])
-  · rcases face _ _ (b0, b1, be0) hbc (by simp [dconn_lit]) with h | h
+  have inB : ∀ x, x ∈ dconn (applyFaceOps locPos u.bottom u.bottomOps) →
+      x ∈ described locPos u ∨ flipC x ∈ described locPos u := by
+    intro x hx
+    unfold described
+    rcases hbc.1 x hx with h | h
     · left; simp only [List.mem_append]; left; left; exact h
     · right; simp only [List.mem_append]; left; left; exact h
-  · rcases face _ _ (b1, b2, be1) hbc (by simp [dconn_lit]) with h | h
-    · left; simp only [List.mem_append]; left; left; exact h
-    · right; simp only [List.mem_append]; left; left; exact h
-  · rcases face _ _ (b2, b3, be2) hbc (by simp [dconn_lit]) with h | h
-    · left; simp only [List.mem_append]; left; left; exact h
-    · right; simp only [List.mem_append]; left; left; exact h
-  · rcases face _ _ (b3, b0, be3) hbc (by simp [dconn_lit]) with h | h
-    · left; simp only [List.mem_append]; left; left; exact h
-    · right; simp only [List.mem_append]; left; left; exact h
-  · rcases face _ _ (t0, t1, te0) htc (by simp [dconn_lit]) with h | h
+  have inT : ∀ x, x ∈ dconn (applyFaceOps locPos u.top u.topOps) →
+      x ∈ described locPos u ∨ flipC x ∈ described locPos u := by
+    intro x hx
+    unfold described
+    rcases htc.1 x hx with h | h
     · left; simp only [List.mem_append]; left; right; exact h
     · right; simp only [List.mem_append]; left; right; exact h
-  · rcases face _ _ (t1, t2, te1) htc (by simp [dconn_lit]) with h | h
-    · left; simp only [List.mem_append]; left; right; exact h
-    · right; simp only [List.mem_append]; left; right; exact h
-  · rcases face _ _ (t2, t3, te2) htc (by simp [dconn_lit]) with h | h
-    · left; simp only [List.mem_append]; left; right; exact h
-    · right; simp only [List.mem_append]; left; right; exact h
-  · rcases face _ _ (t3, t0, te3) htc (by simp [dconn_lit]) with h | h
-    · left; simp only [List.mem_append]; left; right; exact h
-    · right; simp only [List.mem_append]; left; right; exact h
-  all_goals (left; simp only [List.mem_append]; right; simp [List.range, List.range.loop])
-
+  unfold UOp.parts at hdata hverts
+  cases hinv : u.inverted with
+  | false =>
+    simp only [hinv, Bool.false_eq_true, if_false] at hdata hverts
+    rcases slot_conn _ o _ _ _ hb4 ht4 hdata hverts s hs with h | h | ⟨i, hi, h⟩
+    · exact inB _ h
+    · exact inT _ h
+    · left
+      rw [h]
+      unfold described
+      simp only [List.mem_append]
+      right
+      exact List.mem_map.mpr ⟨i, List.mem_range.mpr hi, rfl⟩
+  | true =>
+    simp only [hinv, if_true] at hdata hverts
+    rcases slot_conn _ o _ _ _ ht4 hb4 hdata hverts s hs with h | h | ⟨i, hi, h⟩
+    · exact inT _ h
+    · exact inB _ h
+    · right
+      rw [h]
+      unfold described
+      simp only [List.mem_append]
+      right
+      refine List.mem_map.mpr ⟨i, List.mem_range.mpr hi, ?_⟩
+      simp only [flipC, getD_map_reverse]
 
 /-! non-vacuity of the end-to-end statement and of "first definition wins": two cubes sharing the
     edge between locations 1 and 2; the first gives it a spline as its bottom edge 1 (1 → 2) on an
@@ -409,6 +442,14 @@ example : (assemble exLoc (directedBeams.getD []) [exU1, exU2]).vlocs = [1, 0, 3
     (assemble exLoc (directedBeams.getD []) [exU1, exU2]).edges.length = 2 ∧
     ⟨3, 0, exS.reverse⟩ ∈ (assemble exLoc (directedBeams.getD []) [exU1, exU2]).edges ∧
     ⟨3, 7, exA⟩ ∈ (assemble exLoc (directedBeams.getD []) [exU1, exU2]).edges := by
+  decide +kernel
+
+/-- the same first cube, inverted afterwards (`Operation.invert`): bottom and top swap, its side
+    angle is written from the new bottom vertex with the angle negated -/
+example :
+    let a := assemble exLoc (directedBeams.getD []) [{ exU1 with inverted := true }]
+    a.vlocs = [5, 4, 7, 6, 1, 0, 3, 2] ∧ a.edges.length = 2 ∧
+      ⟨7, 4, exS.reverse⟩ ∈ a.edges ∧ ⟨3, 7, exA.reverse⟩ ∈ a.edges ∧ exA.reverse.angle = -1 := by
   decide +kernel
 
 /-- hypotheses of `T_C07_first_wins_op` on that assembly: slot 3 of the first (resolved) cube -/
